@@ -341,6 +341,9 @@ class SshServer:
                 w.log(ev='send', n=self.n, type=34, bad='short')
                 return
             gex = self.cfg.get('gex')
+            if gex is not None and 'per_alg' in gex:
+                alg = ((self.client_kexinit or {}).get('kex') or [b''])[0].decode('latin-1')
+                gex = gex['per_alg'].get(alg)
             bits = None
             if gex is not None:
                 bits = gex_select(gex['style'], gex['moduli'], mn, pref, mx)
